@@ -1319,6 +1319,16 @@ func (fr *frame) siteAsserts(site ssa.Instruction, args []Val, st *State, reach 
 			if rv, ok := fr.vals[call]; ok && rv.Tuple == nil && !isTuple && rv.T.S != "" {
 				env.vars["callresult"] = SVal{T: ft.termOf(rv, call.Type()), Typ: call.Type()}
 			}
+			// several results: callresult0, callresult1, ...
+			if tt, ok := call.Type().(*types.Tuple); ok {
+				if rv, ok := fr.vals[call]; ok && len(rv.Tuple) == tt.Len() {
+					for k := 0; k < tt.Len(); k++ {
+						if rv.Tuple[k].T.S != "" {
+							env.vars[fmt.Sprintf("callresult%d", k)] = SVal{T: ft.termOf(rv.Tuple[k], tt.At(k).Type()), Typ: tt.At(k).Type()}
+						}
+					}
+				}
+			}
 		}
 		for i, v := range args {
 			if call != nil && i < len(call.Call.Args) {
